@@ -183,6 +183,11 @@ def _table() -> dict[str, dict[str, Any]]:
         "moveaxis_last": lambda x, a: jnp.moveaxis(x, a, -1), "standardize": lambda x, a: jax.nn.standardize(x, axis=a), "median": lambda x, a: jnp.median(x, axis=a),
         "repeat": lambda x, a: jnp.repeat(x, 2, axis=a), "pad_axis": lambda x, a: jnp.pad(x, [(1, 0) if k == a % x.ndim else (0, 0) for k in range(x.ndim)]), "norm": lambda x, a: jnp.linalg.norm(x, axis=a),
         "count_nonzero": lambda x, a: jnp.count_nonzero(x > 0, axis=a), "ptp_free": lambda x, a: jnp.max(x, axis=a) - jnp.min(x, axis=a), "top_k_moved": lambda x, a: lax.top_k(jnp.moveaxis(x, a, -1), 2)[0],
+        "top_k_axis_values": lambda x, a: jnp.tanh(lax.top_k(x, 2, axis=a)[0]) + 1.0, "top_k_axis_indices": lambda x, a: lax.top_k(x, 2, axis=a)[1],
+        "take_along_axis": lambda x, a: jnp.take_along_axis(x, jnp.argsort(x, axis=a), axis=a),
+        "argmax_lax": lambda x, a: lax.argmax(x, a % x.ndim, jnp.int32),
+        "unstack_first": lambda x, a: jnp.moveaxis(x, a, 0)[0], "swapaxes_last": lambda x, a: jnp.swapaxes(x, a, -1) * 2.0, "insert_zeros": lambda x, a: jnp.insert(x, 1, 0.0, axis=a),
+        "delete_first": lambda x, a: jnp.delete(x, 0, axis=a), "tile_axis": lambda x, a: jnp.tile(x, tuple(2 if k == a % x.ndim else 1 for k in range(x.ndim))), "quantile": lambda x, a: jnp.quantile(x, 0.5, axis=a),
     }
     for nm, f in axis_ops.items():
         for a in (0, 1, 2, -1, -3):
@@ -199,6 +204,26 @@ def _table() -> dict[str, dict[str, Any]]:
             add(f"dot_general_contract_l{lc}_r{rc}_square", (lambda lc, rc: lambda a, b: lax.dot_general(a, b, dn(lc, rc)))(lc, rc), {"square_3x3": [A33, B33]})
     add("dot_general_contract_l0_r0_nonsquare", lambda a, b: lax.dot_general(a, b, dn(0, 0)), {"2x3_2x4": [A23, B24]})
     add("dot_general_batch", lambda a, b: lax.dot_general(a, b, (((2,), (1,)), ((0,), (0,)))), {"batch": [x3, np.transpose(x3, (0, 2, 1)).copy()]})
+    # operand pairs of *different* dtype: JAX promotes, the lowering has to do the same (fractional values on the float side)
+    ti = np.array([-4, -2, 0, 1, 3, 5, 7], I32)
+    qf = np.array([-4.5, -2.5, -2.0, -0.5, 0.5, 1.0, 2.5, 3.5, 5.25, 6.999, 7.5], F32)
+    for side in ("left", "right"):
+        add(f"mixed_searchsorted_int_table_float_queries_{side}", (lambda side: lambda a, v: jnp.searchsorted(a, v, side=side))(side), {"fractional": [ti, qf]})
+        add(f"mixed_searchsorted_float_table_int_queries_{side}", (lambda side: lambda a, v: jnp.searchsorted(a, v, side=side))(side), {"ints": [np.array([-3.5, -1.0, 0.5, 2.0, 2.5, 6.0], F32), np.array([-4, -1, 0, 2, 3, 6, 9], I32)]})
+    mi = np.array([-3, -1, 0, 1, 2, 5], I32)
+    mf = np.array([-2.5, -1.0, 0.5, 0.999, 2.5, 4.75], F32)
+    for nm, f in {
+        "add": lambda i, x: i + x, "subtract": lambda i, x: x - i, "multiply": lambda i, x: i * x, "divide": lambda i, x: i / (x + 10.0), "maximum": lambda i, x: jnp.maximum(i, x), "minimum": lambda i, x: jnp.minimum(x, i),
+        "less": lambda i, x: i < x, "greater_equal": lambda i, x: x >= i, "equal": lambda i, x: i == x, "where": lambda i, x: jnp.where(i > 0, i, x), "clip_float_bounds": lambda i, x: jnp.clip(i, -1.5, 1.5) + x * 0,
+        "power": lambda i, x: jnp.abs(x) ** jnp.abs(i), "floor_divide": lambda i, x: jnp.floor_divide(x, jnp.where(i == 0, 1, i)), "mod": lambda i, x: jnp.mod(x, jnp.where(i == 0, 2, i)),
+        "atan2": lambda i, x: jnp.arctan2(x, i + 0.5), "hypot": lambda i, x: jnp.hypot(i, x), "concatenate": lambda i, x: jnp.concatenate([i, x]), "stack_then_sum": lambda i, x: jnp.stack([i.astype(x.dtype), x]).sum(0),
+        "dot": lambda i, x: jnp.dot(i, x), "digitize_float_in_int_bins": lambda i, x: jnp.digitize(x, jnp.sort(i)), "isclose": lambda i, x: jnp.isclose(i, x, atol=0.6),
+    }.items():
+        add(f"mixed_int_float_{nm}", f, {"fractional": [mi, mf]})
+    add("mixed_int8_int32_add", lambda a, b: a + b, {"edges": [np.array([-128, -1, 0, 127], np.int8), np.array([-70000, 3, 128, 2**31 - 128], I32)]})
+    add("mixed_uint8_int32_subtract", lambda a, b: a - b, {"edges": [np.array([0, 1, 200, 255], U8), np.array([1, -1, 300, -2**31 + 255], I32)]})
+    add("mixed_bool_float_multiply", lambda m, x: m * x + (~m) * 2.0, {"mask": [np.array([True, False, True, False, True, False]), mf]})
+    add("mixed_f16_f32_add", lambda h, x: h + x, {"halves": [np.array([0.1, 1.5, -2.25, 1000.0, 6e-5, 3.0], np.float16), mf]})
     # attention configurations with distinct query / key lengths, head counts and feature sizes
     def _qkv(T, S, N=2, H=4, K=None, B=2, seed=5):
         r = np.random.default_rng(seed)
